@@ -68,13 +68,21 @@ def extra(tier, rng, workdir):
                                              % o[1] if want == 0 else "tx %d announced by the trusted peer is not marked trusted" % o[1]})
                     break
     return {"failures": failures, "evaluations": 2 * len(cases) + len(vcases),
-            "coverage": {"two_run_pairs": len(cases), "untrusted_steps_interleaved": nu, "vouching_scenarios": len(vcases)}}
+            "coverage": {"two_run_pairs": len(cases), "untrusted_steps_interleaved": nu, "vouching_scenarios": len(vcases),
+                         "reannounced_with_orphaned_proof_not_judged": txflow.stale_coverage()}}
 
 
 def accept(rec):
+    if txflow.note_stale(rec):
+        return False
     if rec.get("suite") == "txflow" and rec.get("checker") == "flow":
         code = (rec.get("expected") or [0])[0]
-        return code in (122, 131) or code >= 197     # vouching (safe needs the trusted mark)
+        ops, st = rec.get("ops", []), rec.get("step", 0)
+        # vouching: safe needs the trusted mark (122); a tx an untrusted peer sends is never safe on arrival (126),
+        # in particular not from the state stored when a block that was orphaned since confirmed it; the trusted
+        # peer's traffic is not processed before in sync (131)
+        untrusted_tx = 0 <= st < len(ops) and ops[st][0] == "tx" and ops[st][2] == 1
+        return code in (122, 131) or (code == 126 and untrusted_tx) or code >= 197
     if rec.get("checker") == "c02":
         return False                                  # reported by C02
     return True
